@@ -13,7 +13,7 @@ ASSUMPTIONS = [
     'exports: vertex coordinates printed as tokens and parsed back by a small reader in the harness',
     'exact reals: the accumulated parameter u += u_jump does not drift (in floats it can exceed 1.0 by one ulp for some sample sizes - outside the claim)',
 ]
-OUTSIDE = ['binary STL (struct.pack), OBJ vertex normals', 'sample sizes > 6 (quick) / 9 (thorough) of the 2..40 range', 'spline trims with symbolic geometry', 'num_procs > 1 in containers']
+OUTSIDE = ['binary32 rounding of binary STL (struct.pack of a symbolic number is modelled as an exact field), OBJ vertex normals', 'sample sizes > 6 (quick) / 9 (thorough) of the 2..40 range', 'spline trims with symbolic geometry', 'num_procs > 1 in containers']
 BOUNDS = {'quick': 'sample sizes 2..5 (tiling up to 6x5), vertex spacings 1,2,3 dividing n-1; Triangular / Trim / Quad tessellators; rectangular trims (normal and reversed sense); OBJ/OFF/STL of 1-3 surfaces',
           'thorough': 'sample sizes to 9, spacing 4'}
 
@@ -302,6 +302,8 @@ def h_export(cx, sps, fmt, ss, spacing=1, touched=False):
         text = ex.export_obj_str(src, vertex_spacing=spacing)
     elif fmt == 'off':
         text = ex.export_off_str(src, vertex_spacing=spacing)
+    elif fmt == 'stlb':
+        text = ex.export_stl_str(src, binary=True, vertex_spacing=spacing)
     else:
         text = ex.export_stl_str(src, binary=False, vertex_spacing=spacing)
     # reference mesh: what the surfaces' tessellators hold after the export
@@ -331,9 +333,27 @@ def h_export(cx, sps, fmt, ss, spacing=1, touched=False):
         cx.check('indices_in_range', all(0 <= i < hv for f in fs for i in f[1:]))
         cx.check('no_extra_lines', len(lines) == 2 + hv + hf)
     else:
-        lines = [l.split() for l in text.split('\n') if l.strip()]
-        cx.check('solid', lines[0][0] == 'solid' and lines[-1][0] == 'endsolid')
         facets = []
+        if fmt == 'stlb':
+            # binary STL: 80-byte header, int32 facet count, per facet 12 float32 (normal, 3 vertices) + 2 attribute bytes
+            try:
+                hdr, rest = core.read_packed(text, '<80B')
+                (cnt,), rest = core.read_packed(rest, '<i')
+                cx.check('header', all(b == 0 for b in hdr))
+                cx.check('count_field', cnt == len(ref_f), 'count field %s, %d faces' % (cnt, len(ref_f)))
+                for _ in range(len(ref_f)):
+                    nums, rest = core.read_packed(rest, '<12f')
+                    attr, rest = core.read_packed(rest, '<2B')
+                    cx.check('attribute_bytes', attr == [0, 0])
+                    facets.append({'n': nums[0:3], 'v': [nums[3:6], nums[6:9], nums[9:12]]})
+                cx.check('length', len(rest) == 0, '%d trailing bytes' % len(rest))
+            except ValueError as e:
+                cx.fail('binary_layout', str(e))
+                return
+            lines = []
+        else:
+            lines = [l.split() for l in text.split('\n') if l.strip()]
+            cx.check('solid', lines[0][0] == 'solid' and lines[-1][0] == 'endsolid')
         cur = None
         for l in lines:
             if l[0] == 'facet':
@@ -391,7 +411,7 @@ def instances(tier):
     e1 = [spec('surface', (1, 1), ((), ()), rational=False)]
     e2 = e1 + [spec('surface', (1, 2), ((), ()), rational=True)]
     e3 = e2 + [spec('surface', (2, 1), ((), ()), rational=False)]
-    for fmt in ('obj', 'off', 'stl'):
+    for fmt in ('obj', 'off', 'stl', 'stlb'):
         out.append(inst('export %s 3 surfaces after abandoned loop' % fmt, h_export, timeout=1800, sps=e3, fmt=fmt, ss=2, spacing=1, touched=True))
         for lst, ss, spacing in ((e1, 3, 1), (e2, 3, 2), (e3, 2, 1), (e3, 3, 1)):
             out.append(inst('export %s %d surfaces ss%d spacing%d' % (fmt, len(lst), ss, spacing), h_export, timeout=1800, sps=lst, fmt=fmt, ss=ss, spacing=spacing))
